@@ -217,7 +217,9 @@ def _booltime(lib, c):
 
 CONTAINER_DIMS = [("criteria", ["cmp", "cmp-raw-leq", "list", "bool-cond-value", "bool-cond-param", "bool-and-or", "bool-or-and", "none"]),
                   ("abstract_root", [True, False]), ("child_abstract", [False, True]), ("short", [None, "short text"]), ("long", [None, "long\ntext <&>"]),
-                  ("pshort", [None, "p short <&>"]), ("plong", [None, "p long <&> \"q\" text"]), ("nested", [False, True]), ("ns", ["xtce", "default", "other-prefix"])]
+                  ("pshort", [None, "p short <&>"]), ("plong", [None, "p long <&> \"q\" text"]), ("nested", [False, True]), ("ns", ["xtce", "default", "other-prefix"]),
+                  # inheritance depth and the ORDER in which the containers are handed over / written (descendants before their ancestors is legal)
+                  ("levels", ["two", "three-root-first", "three-leaf-first"])]
 
 
 @subject("container", CONTAINER_DIMS)
@@ -245,6 +247,15 @@ def build(lib, subject_name, cfg):
                                  abstract=cfg.get("child_abstract", False), short_description=cfg.get("short"), long_description=cfg.get("long"))
     root.inheritors.append("CHILD")
     conts.append(child)
+    levels = cfg.get("levels", "two")
+    if levels != "two":
+        extra = P.Parameter("GEXTRA", PT.IntegerParameterType("GEXTRA_T", E.IntegerDataEncoding(4, "unsigned")))
+        grand = SC.SequenceContainer("GRAND", [extra], base_container_name="CHILD",
+                                     restriction_criteria=[lib.comparisons.Comparison("3", "SEQF", operator="==", use_calibrated_value=False)])
+        child.inheritors.append("GRAND")
+        conts.append(grand)
+        if levels == "three-leaf-first":
+            conts.reverse()
     nsk = cfg.get("ns", "xtce")
     uri = "http://www.omg.org/space/xtce"
     if nsk == "xtce":
